@@ -14,7 +14,7 @@
    generated function and breaks (1). *)
 From Coq Require Import List NArith ZArith Bool String Lia.
 From RecordUpdate Require Import RecordSet.
-From MV Require Import Bytes CredModel CredFun RetryModel.
+From MV Require Import Bytes CredModel CredProofs CredFun RetryModel RetryProofs.
 From MV.gen Require Import GenCred GenCredFun.
 Import ListNotations RecordSetNotations.
 Local Open Scope N_scope.
@@ -263,9 +263,10 @@ Variable blk_dec : N -> bytes -> bytes -> bytes.
 Variable zdecomp : N -> bytes -> N -> option bytes.
 Variable cf : conf.
 Variable mem : N -> N -> bool.          (* gids_is_member on the map as last loaded *)
-Variables pu pg now : N.                (* the peer's ids (auth_recv) and the clock (time) *)
+Variables pu pg now : N.                (* the peer's ids (auth_recv) and the clock when the request is received *)
+Variable now2 : N.                      (* the clock read again after replay_insert (dec_validate_replay) *)
 
-Notation dec_process := (dec_process hmac sha1 blk_dec zdecomp).
+Notation dec_process2 := (dec_process2 hmac sha1 blk_dec zdecomp).
 Notation dec_parse := (dec_parse hmac sha1 blk_dec zdecomp).
 
 (* the model's stage functions, each the corresponding piece of CredModel.dec_process / dec_parse *)
@@ -324,13 +325,15 @@ Definition st_validate_time (s : dst) : Z * dst :=
   | TExpired => ko s (set_err m e_cred_expired None)
   | TOk => ok (with_msg s m)
   end.
-(* dec_validate_replay: replay_insert's outcome x the retry exemption *)
+(* dec_validate_replay: replay_insert's outcome x the retry exemption x the fresh clock reading *)
 Definition st_validate_replay (s : dst) : Z * dst :=
   let m := d_msg s in
   let k := cred_rkey (oo_tag (d_out s)) m in
   if r_mem k (d_rs s) then
     if replay_exempt cf m then ok s else ko s (set_err m e_cred_replayed None)
-  else ok (with_new (with_rs s (k :: d_rs s)) true).        (* inserted by this request: c->is_replay_new = 1 *)
+  else if m_time0 m + m_ttl m <? now2
+       then ko (with_rs s (k :: d_rs s)) (set_err m e_cred_expired None)   (* expired since receipt: the record stays *)
+       else ok (with_new (with_rs s (k :: d_rs s)) true).    (* inserted by this request: c->is_replay_new = 1 *)
 
 Definition st_cred_create (s : dst) : Z * dst := (1%Z, s).     (* a pointer that is not NULL: allocation failure is not modelled *)
 
@@ -426,22 +429,22 @@ Ltac stage_done :=
   match goal with so : bool |- _ => destruct so end; cbn [dec_rollback]; repeat split; reflexivity.
 Ltac nz_code := apply set_err_nz; vm_compute; discriminate.
 
-(* the request is answered with success: the cache-independent part accepts and the record is absent, or present and
-   the retry exemption applies *)
+(* the request is answered with success: the cache-independent part accepts and the record is present and the retry
+   exemption applies, or absent and the credential has not expired by the fresh clock reading *)
 Definition dec_accepts (rs : rstate) (m : msg) : bool :=
   match dec_pre hmac sha1 blk_dec zdecomp cf mem m pu pg now with
   | inl _ => false
-  | inr (m', k) => negb (r_mem k rs) || replay_exempt cf m'
+  | inr (m', k) => if r_mem k rs then replay_exempt cf m' else negb (m_time0 m' + m_ttl m' <? now2)
   end.
 
 Theorem dec_process_is_pipe : forall (rs : rstate) (m : msg) (send_ok : bool),
   let '(rc, s) := pipe_control (dec_ops send_ok) dec_stage_order soft_err (Some "is_replay_new"%string) (dinit m rs) in
-  let '(r, rs', k) := dec_process cf mem rs m pu pg now in
+  let '(r, rs', k) := dec_process2 cf mem rs m pu pg now now2 in
   d_msg s = r /\ d_rs s = (if send_ok then rs' else dec_rollback rs' k) /\
   rc = (if send_ok && dec_accepts rs m then 0 else -1)%Z.
 Proof.
   intros rs m so. unfold pipe_control, dec_stage_order. cbn [run_chain op_stage dec_ops].
-  unfold CredModel.dec_process, dec_accepts, RetryModel.dec_pre.
+  unfold CredModel.dec_process2, dec_accepts, RetryModel.dec_pre.
   run_stage "dec_validate_msg"%string st_validate_msg.
   destruct (m_data_len m =? 0) eqn:E1; [stage_ko nz_code|stage_ok].
   run_stage "cred_create"%string st_cred_create. stage_ok.
@@ -478,14 +481,14 @@ Proof.
   fold (replay_exempt cf (m2 <| m_ttl := ttl' |>)).
   match goal with |- context [r_mem ?k rs] => destruct (r_mem k rs) eqn:E11 end.
   - destruct (replay_exempt cf (m2 <| m_ttl := ttl' |>)) eqn:E12; [stage_done|stage_ko nz_code].
-  - stage_done.
+  - match goal with |- context [?a <? now2] => destruct (a <? now2) eqn:E13 end; [stage_ko nz_code|stage_done].
 Qed.
 
 (* THE TRANSLATED dec_process_msg, run over the model's stage functions, IS the model: the reply, the replay hash after
    the request (rolled back exactly when the reply of a successful decode could not be sent) and the return code *)
 Theorem dec_process_is_source : forall (rs : rstate) (m : msg) (send_ok : bool),
   let '(rc, s) := src_dec_process_msg (dec_ops send_ok) (dinit m rs) in
-  let '(r, rs', k) := dec_process cf mem rs m pu pg now in
+  let '(r, rs', k) := dec_process2 cf mem rs m pu pg now now2 in
   d_msg s = r /\ d_rs s = (if send_ok then rs' else dec_rollback rs' k) /\
   rc = (if send_ok && dec_accepts rs m then 0 else -1)%Z.
 Proof. intros. rewrite src_dec_process_msg_is_pipe. apply dec_process_is_pipe. Qed.
@@ -496,7 +499,7 @@ Proof. intros. rewrite src_dec_process_msg_is_pipe. apply dec_process_is_pipe. Q
 Definition attempt_msg (cred : bytes) (i : nat) : msg :=
   msg0 <| m_data := cred |> <| m_data_len := len cred |> <| m_retry := N.of_nat (i - 1) |>.
 
-Theorem dec_attempt_is_source : forall (cred : bytes) (rs : rstate) (i : nat),
+Theorem dec_attempt_is_source : forall (cred : bytes) (rs : rstate) (i : nat), now2 = u32 now ->
   let run so := src_dec_process_msg (dec_ops so) (dinit (attempt_msg cred i) rs) in
   let att f := dec_attempt hmac sha1 blk_dec zdecomp cf mem cred pu pg now rs i f in
   att (Some ReqCut) = (rs, None) /\
@@ -504,19 +507,21 @@ Theorem dec_attempt_is_source : forall (cred : bytes) (rs : rstate) (i : nat),
   att (Some RspSendFailed) = (d_rs (snd (run false)), None) /\
   att None = (d_rs (snd (run true)), Some (d_msg (snd (run true)))).
 Proof.
-  intros cred rs i run att. subst run att. unfold dec_attempt. fold (attempt_msg cred i).
+  intros cred rs i Hclk run att. subst run att. unfold dec_attempt. fold (attempt_msg cred i).
+  rewrite (dec_process_atomic hmac sha1 blk_dec zdecomp), <- Hclk.
   pose proof (dec_process_is_source rs (attempt_msg cred i) true) as Ht.
   pose proof (dec_process_is_source rs (attempt_msg cred i) false) as Hf.
   destruct (src_dec_process_msg (dec_ops true) (dinit (attempt_msg cred i) rs)) as [rc1 s1].
   destruct (src_dec_process_msg (dec_ops false) (dinit (attempt_msg cred i) rs)) as [rc2 s2].
-  destruct (dec_process cf mem rs (attempt_msg cred i) pu pg now) as [[r rs'] k].
+  destruct (dec_process2 cf mem rs (attempt_msg cred i) pu pg now now2) as [[r rs'] k].
   cbn [fst snd]. destruct Ht as (Ht1 & Ht2 & _). destruct Hf as (Hf1 & Hf2 & _).
   rewrite Ht1, Ht2, Hf2. repeat split; reflexivity.
 Qed.
 
 (* a stage other than the replay stage never touches the replay hash - and the replay stage is the last one, so every
-   failing stage leaves the replay state as it found it unless it is the replay stage itself (which then has not
-   inserted either: st_validate_replay fails only on `already there`) *)
+   failing stage leaves the replay state as it found it unless it is the replay stage itself, which fails on `already
+   there` (nothing inserted) or on a credential that expired between receipt and the replay step (its record inserted
+   and left for the purge) *)
 Lemma stage_keeps_replay_state : forall (n : string) (s : dst),
   n <> "dec_validate_replay"%string -> d_rs (snd (dec_stage n s)) = d_rs s.
 Proof.
@@ -542,12 +547,17 @@ Proof.
 Qed.
 
 Lemma failed_replay_stage_keeps_replay_state : forall (s : dst),
-  stage_failed "dec_validate_replay" (fst (st_validate_replay s)) = true -> d_rs (snd (st_validate_replay s)) = d_rs s.
+  stage_failed "dec_validate_replay" (fst (st_validate_replay s)) = true ->
+  let k := cred_rkey (oo_tag (d_out s)) (d_msg s) in
+  d_rs (snd (st_validate_replay s)) = d_rs s \/
+  (d_rs (snd (st_validate_replay s)) = k :: d_rs s /\ r_mem k (d_rs s) = false /\ snd k < now2).
 Proof.
-  intros s. unfold st_validate_replay.
-  destruct (r_mem (cred_rkey (oo_tag (d_out s)) (d_msg s)) (d_rs s)).
-  - destruct (replay_exempt cf (d_msg s)); reflexivity.
-  - cbn. discriminate.
+  intros s. unfold st_validate_replay. cbv zeta.
+  destruct (r_mem (cred_rkey (oo_tag (d_out s)) (d_msg s)) (d_rs s)) eqn:M.
+  - destruct (replay_exempt cf (d_msg s)); left; reflexivity.
+  - destruct (m_time0 (d_msg s) + m_ttl (d_msg s) <? now2) eqn:E.
+    + intros _. right. split; [reflexivity|]. split; [reflexivity|]. apply N.ltb_lt in E. exact E.
+    + cbn. discriminate.
 Qed.
 
 Lemma replay_stage_is_last : last dec_stage_order ""%string = "dec_validate_replay"%string.
@@ -601,20 +611,23 @@ Proof.
 Qed.
 
 (* the replay stage: replay_insert reports `already there` exactly when the key is in the hash, and inserts otherwise;
-   what the stage makes of that report - the retry exemption, and c->is_replay_new set exactly on an insert - is the
-   source's dec_validate_replay *)
+   what the stage makes of that report - the retry exemption, the FRESH expiry check against the clock read after the
+   insert, and c->is_replay_new set exactly on an accepted insert - is the source's dec_validate_replay *)
 Theorem st_validate_replay_is_source : forall (s : dst) (en : Z),
   let k := cred_rkey (oo_tag (d_out s)) (d_msg s) in
   let present := r_mem k (d_rs s) in
   st_validate_replay s =
-  let '(r, c') := src_dec_validate_replay cf (if present then 1 else 0) en (b2z (d_new s)) (d_msg s) in
+  let '(r, c') := src_dec_validate_replay cf (Z.of_N now2) (if present then 1 else 0) en (b2z (d_new s)) (d_msg s) in
   let '(v, s') := lift s r None in
   (v, with_new (if present then s' else with_rs s' (k :: d_rs s')) (negb (c' =? 0)%Z)).
 Proof.
   intros s en k present. subst k present. rewrite dec_validate_replay_is_source. unfold st_validate_replay, lift.
+  rewrite clock_not_failed, <- N2Z.inj_add, zgtb.
   destruct (r_mem (cred_rkey (oo_tag (d_out s)) (d_msg s)) (d_rs s)); cbn.
   - rewrite b2z_nz. destruct (replay_exempt cf (d_msg s)); cbn; [rewrite with_msg_same|]; destruct s; reflexivity.
-  - rewrite with_msg_same. reflexivity.
+  - destruct (m_time0 (d_msg s) + m_ttl (d_msg s) <? now2); cbn.
+    + rewrite b2z_nz. destruct s; reflexivity.
+    + rewrite with_msg_same. reflexivity.
 Qed.
 End Dec.
 
